@@ -53,6 +53,11 @@ def module_level_mutables(model):
                         kind = "threadlocal"
                     elif callee in ("threading.Lock", "threading.RLock"):
                         kind = "lock"
+                if kind == "container":
+                    from .flow import is_constant_global
+
+                    if isinstance(v, (ast.List, ast.Dict, ast.Set)) and is_constant_global(mod, name):
+                        continue  # a literal lookup table nobody mutates is a constant, not state
                 if kind:
                     out[("global", mod.name, name)] = (kind, text)
     return out
